@@ -151,23 +151,31 @@ func VrfC17Removed() {
 	c.host = h
 	c.peerManager = pstoremgr.New(ctx, nil, "")
 	c.datastore = vrfDatastore{}
-	inPeerset := vrf_nondet_bool("still_in_peerset")
-	cons.peers = []peer.ID{vrfPeerNames[0]}
-	if inPeerset {
-		cons.peers = append(cons.peers, c.id)
-	}
-	cons.peersErr = vrf_nondet_bool("peerset_unknown")
+	// the peerset this peer sees at each poll: with or without itself, of the
+	// same or of another size than at the previous poll, or unknown
+	sets := [][]peer.ID{{vrfPeerNames[0], c.id}, {vrfPeerNames[0]}, {vrfPeerNames[0], vrfPeerNames[1]}, {vrfPeerNames[0], vrfPeerNames[1], c.id}}
+	cons.peers = sets[0]
 	go c.watchPeers()
 	vrf_yield()
-	vrf_advance_time(1100) // one watch interval
-	vrf_yield()
+	evicted := false
+	for r := 0; r < vrf_param("polls") && !evicted; r++ {
+		k := vrf_choice("peerset_at_poll", len(sets)+1)
+		if k == len(sets) {
+			cons.peersErr = true
+		} else {
+			cons.peersErr = false
+			cons.peers = sets[k]
+			evicted = k == 1 || k == 2
+		}
+		vrf_advance_time(1100) // one watch interval
+		vrf_yield()
+	}
 	stopped := false
 	select {
 	case <-c.doneCh:
 		stopped = true
 	default:
 	}
-	evicted := !inPeerset && !cons.peersErr
 	vrf_assert(stopped == evicted, "C17.removed.stops-iff-evicted")
 	cleaned := false
 	for _, e := range cons.events {
